@@ -171,6 +171,8 @@ var (
 	ntasks    int32
 	tstate    [MaxTasks]int32
 	tblock    [MaxTasks]unsafe.Pointer
+	tcondseq  [MaxTasks]uint64 // order in which tasks began to wait on a sync.Cond
+	condSeq   uint64
 	tsteps    [MaxTasks + 1]int64 // steps in current operation; [MaxTasks] = solo
 	tcleanup  [MaxTasks + 1]int32
 	tinparse  [MaxTasks + 1]int32
@@ -909,6 +911,124 @@ func Lock(m *sync.Mutex) {
 		park(unsafe.Pointer(m))
 	}
 	Yield(SeamAfterLock)
+}
+
+// TryLock replaces (*sync.Mutex).TryLock: never blocks; the attempt is a lock seam.
+//
+//go:norace
+func TryLock(m *sync.Mutex) bool {
+	if mode != ModeSim {
+		return m.TryLock()
+	}
+	Yield(SeamBeforeLock)
+	ok := m.TryLock()
+	if ok {
+		Yield(SeamAfterLock)
+	}
+	return ok
+}
+
+// RWTryLock / TryRLock replace the sync.RWMutex try methods.
+//
+//go:norace
+func RWTryLock(m *sync.RWMutex) bool {
+	if mode != ModeSim {
+		return m.TryLock()
+	}
+	Yield(SeamBeforeLock)
+	ok := m.TryLock()
+	if ok {
+		Yield(SeamAfterLock)
+	}
+	return ok
+}
+
+//go:norace
+func TryRLock(m *sync.RWMutex) bool {
+	if mode != ModeSim {
+		return m.TryRLock()
+	}
+	Yield(SeamBeforeLock)
+	ok := m.TryRLock()
+	if ok {
+		Yield(SeamAfterLock)
+	}
+	return ok
+}
+
+// CondWait replaces (*sync.Cond).Wait.  The caller holds c.L.  Releasing c.L and joining the
+// waiters of c is one step (no yield in between), as in the real Cond; the lock is taken again
+// through the ordinary lock seam after a Signal or Broadcast chose this task.
+//
+//go:norace
+func CondWait(c *sync.Cond) {
+	switch mode {
+	case ModeOff:
+		c.Wait()
+		return
+	case ModeSolo:
+		panic(AbortPanic) // a reference execution has nobody who could signal
+	}
+	me := int(turn)
+	condSeq++
+	tcondseq[me] = condSeq
+	switch l := c.L.(type) {
+	case *sync.Mutex:
+		l.Unlock()
+		wakeWaiters(unsafe.Pointer(l))
+		park(unsafe.Pointer(c))
+		Lock(l)
+	case *sync.RWMutex:
+		l.Unlock()
+		wakeWaiters(unsafe.Pointer(l))
+		park(unsafe.Pointer(c))
+		RWLock(l)
+	default:
+		panic("simrt: sync.Cond with a Locker that is neither *sync.Mutex nor *sync.RWMutex")
+	}
+}
+
+// CondSignal replaces (*sync.Cond).Signal: the task that has waited longest is made runnable.
+//
+//go:norace
+func CondSignal(c *sync.Cond) {
+	if mode != ModeSim {
+		c.Signal()
+		return
+	}
+	if abort == 0 {
+		Yield(SeamBeforeUnlock)
+	}
+	best := -1
+	for i := 0; i < int(ntasks); i++ {
+		if tstate[i] == tsBlocked && tblock[i] == unsafe.Pointer(c) && (best < 0 || tcondseq[i] < tcondseq[best]) {
+			best = i
+		}
+	}
+	if best >= 0 {
+		tstate[best] = tsRunnable
+		tblock[best] = nil
+	}
+	if abort == 0 {
+		Yield(SeamAfterUnlock)
+	}
+}
+
+// CondBroadcast replaces (*sync.Cond).Broadcast.
+//
+//go:norace
+func CondBroadcast(c *sync.Cond) {
+	if mode != ModeSim {
+		c.Broadcast()
+		return
+	}
+	if abort == 0 {
+		Yield(SeamBeforeUnlock)
+	}
+	wakeWaiters(unsafe.Pointer(c))
+	if abort == 0 {
+		Yield(SeamAfterUnlock)
+	}
 }
 
 // Unlock replaces (*sync.Mutex).Unlock.
